@@ -447,12 +447,15 @@ class TaskScenario(ScenarioData):
         if self.currentSlotIdx is None:
             if forward:
                 start_date = self.property.get("start", self.scenarioIdx)
-                if start_date:
+                if start_date and self.property.provided("start", self.scenarioIdx):
                     self.currentSlotIdx = self.project.dateToIdx(start_date)
                 else:
                     # ASAP mode, start at project start or after dependencies
                     # Check ALL dependencies (including inherited) to find the earliest start
                     earliest_start = self.project["start"]
+                    # A start date inherited from a container is only a lower bound
+                    if start_date and start_date > earliest_start:
+                        earliest_start = start_date
                     for dep in self.getAllDependencies():
                         # dep can be a dict with 'task' key (new format with gap),
                         # or a Task object directly (old format)
